@@ -2,7 +2,7 @@
 # re-run every seeded change against the check of the property it breaks (scratch copies
 # of /repo under /dev/shm via PVC_REPO_SRC; /repo itself is not touched)
 out=/verif/seeded/RESULTS.txt; : > $out
-for d in /verif/seeded/C*/ /verif/seeded/S*/ /verif/seeded/T*/ /verif/seeded/U*/; do
+for d in /verif/seeded/C*/ /verif/seeded/S*/ /verif/seeded/T*/ /verif/seeded/U*/ /verif/seeded/V*/; do
   id=$(basename $d)
   prop=$(/venv/bin/python -c "import json,sys; print(json.load(open('$d/meta.json'))['property'])")
   echo "##### seed $id (property $prop)" >> $out
